@@ -128,7 +128,7 @@ func rangeFact(t types.Type, v Term) Term {
 }
 
 func sliceWF(v Term) Term {
-	return fmt.Sprintf("(and (<= 0 (s-reg %s)) (<= 0 (s-off %s)) (<= 0 (s-len %s)) (<= (s-len %s) (s-cap %s)) (< (+ (s-off %s) (s-cap %s)) 9223372036854775808) (=> (= (s-reg %s) 0) (= %s nilslice)))", v, v, v, v, v, v, v, v, v)
+	return fmt.Sprintf("(and (<= (- 1000000) (s-reg %s)) (<= 0 (s-off %s)) (<= 0 (s-len %s)) (<= (s-len %s) (s-cap %s)) (< (+ (s-off %s) (s-cap %s)) 9223372036854775808) (=> (= (s-reg %s) 0) (= %s nilslice)))", v, v, v, v, v, v, v, v, v)
 }
 
 // elemSize in bytes for make() bounds
